@@ -1228,6 +1228,15 @@ def call_builtin(I, e, name, args, kws):
         out.data = E
         return out
     if name == "getattr":
+        if len(args) >= 2 and args[1].known and isinstance(args[1].const, str) and args[0].tag("kind") == "self" and isinstance(e, ast.Call):
+            fake = ast.Attribute(value=e.args[0], attr=args[1].const, ctx=ast.Load())
+            ast.copy_location(fake, e)
+            v = I.load_self(fake)
+            if len(args) > 2 and v.tag("undeclared_field"):
+                from .values import join as _join
+                v = _join(v, args[2])          # getattr(self, name, default): the default when the attribute is not set
+                v.tags["self_container"] = args[1].const
+            return v
         if len(args) >= 2 and args[1].known and args[1].const == "dtype":
             f = args[0].flat()
             return Val(shp=f.data | f.shp, ctrl=f.ctrl, term=mk_term("dtype", args[0].term), tags={"dtype_of": True})
